@@ -221,23 +221,64 @@ func checkArrayAlgebra(p *Program, r *Report, prop string) {
 				}
 				return "?", nil
 			}
-			ok1, so := srcOf(pt.off.val, "Offset")
-			ok2, sd := srcOf(pt.od.val, "OriginalDims")
-			switch {
-			case ok1 == "fresh":
-				if ok2 == "value" && sd == so || ok2 == "inherited" && false {
-					r.OK("R01.4", fmt.Sprintf("%s: Offset = Offsets(S), OriginalDims = S", FuncKey(fn)))
-				} else {
-					r.Fail("R01.4", key, p.Pos(pt.od.at.Pos()), "fresh row-major strides Offsets(S) are stored together with an OriginalDims that is not S: Contiguous() then compares the view's extents with the wrong allocation shape (false negatives, or an index out of range when the rank differs)")
+			// judge: the relation between the strides and the allocation shape stored together; a constructor that
+			// stores two of its own parameters (`newArrayTypeCView(impl, start, originalDims, dims, step, offset)`) is
+			// judged at each of its calls, with the arguments passed there
+			var judge func(offVal, odVal ssa.Value, depth int) (string, string)
+			judge = func(offVal, odVal ssa.Value, depth int) (string, string) {
+				ok1, so := srcOf(offVal, "Offset")
+				ok2, sd := srcOf(odVal, "OriginalDims")
+				switch {
+				case ok1 == "fresh":
+					if ok2 == "value" && sd == so {
+						return "ok", "Offset = Offsets(S), OriginalDims = S"
+					}
+					return "fail", "fresh row-major strides Offsets(S) are stored together with an OriginalDims that is not S: Contiguous() then compares the view's extents with the wrong allocation shape (false negatives, or an index out of range when the rank differs)"
+				case ok1 == "inherited":
+					if ok2 == "inherited" && sd == so {
+						return "ok", "Offset and OriginalDims inherited from the same view"
+					}
+					return "fail", "strides inherited from a parent view are stored with an OriginalDims from a different source"
 				}
-			case ok1 == "inherited":
-				if ok2 == "inherited" && sd == so {
-					r.OK("R01.4", fmt.Sprintf("%s: Offset and OriginalDims inherited from the same view", FuncKey(fn)))
-				} else {
-					r.Fail("R01.4", key, p.Pos(pt.od.at.Pos()), "strides inherited from a parent view are stored with an OriginalDims from a different source")
+				po, isP1 := so.(*ssa.Parameter)
+				pd, isP2 := sd.(*ssa.Parameter)
+				if ok1 == "value" && ok2 == "value" && isP1 && isP2 && po.Parent() == pd.Parent() && depth < 3 {
+					f := po.Parent()
+					io, id := -1, -1
+					for i, q := range f.Params {
+						if q == po {
+							io = i
+						}
+						if q == pd {
+							id = i
+						}
+					}
+					nCalls := 0
+					for _, caller := range dataFuncs(p) {
+						for _, c := range callsIn(caller) {
+							if c.Common().StaticCallee() != f || c.Common().IsInvoke() || io >= len(c.Common().Args) || id >= len(c.Common().Args) {
+								continue
+							}
+							nCalls++
+							verdict, why := judge(c.Common().Args[io], c.Common().Args[id], depth+1)
+							if verdict != "ok" {
+								return verdict, fmt.Sprintf("at the call of %s in %s: %s", f.Name(), caller.Name(), why)
+							}
+						}
+					}
+					if nCalls > 0 {
+						return "ok", fmt.Sprintf("constructor %s: at each of its %d calls the strides and the allocation shape passed belong together", f.Name(), nCalls)
+					}
 				}
+				return "undecided", "origin of the stored strides not recognised"
+			}
+			switch verdict, why := judge(pt.off.val, pt.od.val, 0); verdict {
+			case "ok":
+				r.OK("R01.4", fmt.Sprintf("%s: %s", FuncKey(fn), why))
+			case "fail":
+				r.Fail("R01.4", key, p.Pos(pt.od.at.Pos()), why)
 			default:
-				r.Undecided("R01.4", key, p.Pos(pt.off.at.Pos()), "origin of the stored strides not recognised")
+				r.Undecided("R01.4", key, p.Pos(pt.off.at.Pos()), why)
 			}
 		}
 	}
@@ -257,6 +298,7 @@ func checkArrayAlgebra(p *Program, r *Report, prop string) {
 	checkSeriesAxisSelectors(p, r, only)
 	checkViewsOwnStrides(p, r, prop)
 	checkRequestedExtents(p, r, prop)
+	checkStartFromParentStrides(p, r, prop)
 	checkRunWritesAllValues(p, r, only)
 	r.Rule("R01.5", "views are live: a view object holds nothing but strides and the shared storage (no second element buffer), and what Unroll hands out is the storage itself or gathered in the same call, never a copy cached in the view")
 	// R01.2 / R01.3
@@ -1194,31 +1236,44 @@ func checkViewsOwnStrides(p *Program, r *Report, prop string) {
 			n++
 			key := fmt.Sprintf("%s:owns-%s#%d", FuncKey(fn), ev.field, k)
 			var names []string
+			// whose slice a parameter of a package-private function is, is decided where the function is called (a setter
+			// method storing its parameter into its receiver: `nd.Step = step` in setStrides; a private constructor
+			// storing the strides it is given: newArrayTypeCView(impl, start, originalDims, dims, step, offset))
+			var atCallers func(f *ssa.Function, prm *ssa.Parameter, depth int)
+			atCallers = func(f *ssa.Function, prm *ssa.Parameter, depth int) {
+				pi := -1
+				for i, q := range f.Params {
+					if q == prm {
+						pi = i
+					}
+				}
+				for _, caller := range dataFuncs(p) {
+					for _, cc := range callsIn(caller) {
+						if cc.Common().StaticCallee() != f || cc.Common().IsInvoke() || pi < 0 || pi >= len(cc.Common().Args) {
+							continue
+						}
+						for cp := range sliceParamsOf(cc.Common().Args[pi], 0) {
+							if !token.IsExported(caller.Name()) && depth < 3 && cp.Parent() == caller {
+								atCallers(caller, cp, depth+1)
+								continue
+							}
+							names = append(names, cp.Name()+" of "+caller.Name())
+						}
+					}
+				}
+			}
 			for prm := range sliceParamsOf(ev.val, 0) {
-				// a setter method storing one of its own parameters into its receiver (`nd.Step = step` in
-				// setStrides): whose slice that is is decided where the method is called
 				if st, isStore := ev.at.(*ssa.Store); isStore && fn.Signature.Recv() != nil && len(fn.Params) > 0 {
 					if fa, ok := st.Addr.(*ssa.FieldAddr); ok {
 						if _, base, _ := fieldName(fa); objOf(base) == ssa.Value(fn.Params[0]) {
-							pi := -1
-							for i, q := range fn.Params {
-								if q == prm {
-									pi = i
-								}
-							}
-							for _, caller := range dataFuncs(p) {
-								for _, cc := range callsIn(caller) {
-									if cc.Common().StaticCallee() != fn || pi < 0 || pi >= len(cc.Common().Args) {
-										continue
-									}
-									for cp := range sliceParamsOf(cc.Common().Args[pi], 0) {
-										names = append(names, cp.Name()+" of "+caller.Name())
-									}
-								}
-							}
+							atCallers(fn, prm, 0)
 							continue
 						}
 					}
+				}
+				if !token.IsExported(fn.Name()) && prm.Parent() == fn {
+					atCallers(fn, prm, 0)
+					continue
 				}
 				names = append(names, prm.Name())
 			}
@@ -1405,4 +1460,118 @@ func checkRunWritesAllValues(p *Program, r *Report, only func(*arrayType) bool) 
 		}
 	}
 	r.Floor("R01.11", "run-write methods", n, 16)
+}
+
+// checkStartFromParentStrides (R01.12): a view starts where the parent's strides put its first element. The position
+// `loc` of a slice is given in the index space of the array being sliced, so the storage offset of the view's first
+// element is loc weighted by the *parent's* strides. Where a function fills in the Start of a view other than its
+// receiver, no stride vector (Step, Offset, OffsetStep) that enters the stored value is read back from the view being
+// filled in — unless that field was just set to the parent's own vector: the view's strides already include its step.
+func checkStartFromParentStrides(p *Program, r *Report, prop string) {
+	r.Rule("R01.12", "a view starts where the parent's strides put it: in a function that stores the Start of a view other than its receiver (SliceInto), every stride vector (Step, Offset, OffsetStep) the stored value depends on is a field of the array being sliced, not of the view being filled in (whose strides are already multiplied by the slice's step: a start computed with them is wrong for every stepped slice that does not begin at 0) — a field of the view that holds the parent's own vector is accepted")
+	n := 0
+	for _, fn := range dataFuncs(p) {
+		if prop == "C03" && relPkg(fnPkg(fn).Path()) != "data/cdata" {
+			if fn.Signature.Recv() == nil || !isCommonStruct(fn.Signature.Recv().Type()) {
+				continue
+			}
+		}
+		if fn.Signature.Recv() == nil || len(fn.Params) == 0 {
+			continue
+		}
+		k := 0
+		for _, ev := range commonFieldStores(fn) {
+			st, isStore := ev.at.(*ssa.Store)
+			if ev.field != "Start" || ev.val == nil || !isStore {
+				continue
+			}
+			dest := objOf(ev.base)
+			if dest == ssa.Value(fn.Params[0]) || dest == objOf(fn.Params[0]) {
+				continue
+			}
+			// stride vectors the stored value depends on
+			type rd struct {
+				field string
+				load  *ssa.UnOp
+			}
+			var reads []rd
+			dependsOn(ev.val, func(x ssa.Value) bool {
+				if ld, ok := x.(*ssa.UnOp); ok && ld.Op == token.MUL {
+					if nm, b, okf := loadedField(ld); okf && (nm == "Step" || nm == "Offset" || nm == "OffsetStep") && objOf(b) == dest {
+						reads = append(reads, rd{nm, ld})
+					}
+				}
+				return false
+			}, map[ssa.Value]bool{})
+			// the offset may be worked out by an addressing method (`dest.Start = nd.Index(loc)`): the parent's is right,
+			// the view's own would weight the position with the stepped strides
+			viaView := ""
+			viaParent := false
+			dependsOn(ev.val, func(x ssa.Value) bool {
+				if c, ok := x.(*ssa.Call); ok {
+					if h := c.Common().StaticCallee(); h != nil && InModule(h) && h.Signature.Recv() != nil && len(c.Common().Args) > 0 && isCommonStruct(h.Signature.Recv().Type()) {
+						if objOf(c.Common().Args[0]) == dest {
+							viaView = h.Name()
+						} else {
+							viaParent = true
+						}
+					}
+				}
+				return false
+			}, map[ssa.Value]bool{})
+			if len(reads) == 0 && viaView == "" && !viaParent {
+				// does it depend on strides at all?
+				any := false
+				dependsOn(ev.val, func(x ssa.Value) bool {
+					if nm, _, okf := loadedField(x); okf && (nm == "Step" || nm == "Offset" || nm == "OffsetStep") {
+						any = true
+					}
+					return false
+				}, map[ssa.Value]bool{})
+				if !any {
+					continue
+				}
+			}
+			k++
+			n++
+			key := fmt.Sprintf("%s:start-from-parent#%d", FuncKey(fn), k)
+			bad := ""
+			for _, x := range reads {
+				// the value the view's field holds at this read: the parent's own vector is fine
+				parents := true
+				found := false
+				for _, ev2 := range commonFieldStores(fn) {
+					st2, ok := ev2.at.(*ssa.Store)
+					if !ok || ev2.field != x.field || objOf(ev2.base) != dest || ev2.val == nil {
+						continue
+					}
+					if !canReach(st2, x.load) {
+						continue
+					}
+					found = true
+					for _, o := range origins(ev2.val) {
+						nm, b, okf := loadedField(o)
+						if o == nil || !okf || nm != x.field || objOf(b) == dest {
+							parents = false
+						}
+					}
+				}
+				if !found || !parents {
+					bad = x.field
+				}
+			}
+			if viaView != "" {
+				r.Fail("R01.12", key, p.Pos(st.Pos()), fmt.Sprintf("the Start of the new view is worked out by the view's own %s(): its strides already include the slice's step, while the position is given in the index space of the array being sliced — every stepped slice that does not begin at 0 along the stepped axis starts at the wrong element", viaView))
+			} else if bad == "" {
+				r.OK("R01.12", FuncKey(fn)+": the view's Start is computed with the strides of the array being sliced")
+			} else {
+				r.Fail("R01.12", key, p.Pos(st.Pos()), fmt.Sprintf("the Start of the new view is computed with the view's own %s, which already includes the slice's step, while the position it is weighted with is given in the index space of the array being sliced: every stepped slice that does not begin at 0 along the stepped axis starts at the wrong element (a zero step, as in the write-back of packed state rows, cancels the position altogether)", bad))
+			}
+		}
+	}
+	floor := 1
+	if prop == "C03" {
+		floor = 0
+	}
+	r.Floor("R01.12", "view starts computed from strides", n, floor)
 }
